@@ -100,9 +100,34 @@ def _install_clock() -> None:
     sched_run.datetime = FakeDT  # type: ignore[attr-defined]
 
 
+def _spec_value(items: List[Dict[str, Any]]) -> Any:
+    """A CronSpec field: an int for a single number, else the field text."""
+    if len(items) == 1 and items[0]["k"] == "num":
+        return items[0]["a"]
+    return render_field(items)
+
+
 def run(scn: Dict[str, Any]) -> Dict[str, Any]:
-    """scn = {"calls": [...]}; returns {"cfg": {"zones": tables}, "ev": [...]}."""
+    """scn = {"calls": [...], "tz": optional host TZ}; returns {"cfg": {"zones": tables}, "ev": [...]}."""
+    import os
+    import time as _time
     _install_clock()
+    old_tz = os.environ.get("TZ")
+    if scn.get("tz"):
+        os.environ["TZ"] = scn["tz"]          # the host's local zone must not matter
+        _time.tzset()
+    try:
+        return _run(scn)
+    finally:
+        if scn.get("tz"):
+            if old_tz is None:
+                os.environ.pop("TZ", None)
+            else:
+                os.environ["TZ"] = old_tz
+            _time.tzset()
+
+
+def _run(scn: Dict[str, Any]) -> Dict[str, Any]:
     ev = []
     for c in scn["calls"]:
         if c["e"] == "cron":
@@ -115,6 +140,13 @@ def run(scn: Dict[str, Any]) -> Dict[str, Any]:
             else:
                 off = ZONES[o["z"] - 1]
             _Clock.now_utc = inst_to_dt(c["day"], c["sod"], c.get("us", 0))
+            if c.get("via_spec"):
+                # the public way to build a cron schedule: CronSpec -> to_cron()
+                from taskiq.scheduler.scheduled_task import CronSpec
+                spec = CronSpec(minutes=_spec_value(c["f"][0]), hours=_spec_value(c["f"][1]), days=_spec_value(c["f"][2]),
+                                months=_spec_value(c["f"][3]), weekdays=_spec_value(c["f"][4]), offset=off)
+                expr = spec.to_cron()
+                off = spec.offset
             task = ScheduledTask(task_name="t", labels={}, args=[], kwargs={}, cron=expr, cron_offset=off)
             try:
                 res = sched_run.get_task_delay(task)
@@ -139,7 +171,10 @@ def run(scn: Dict[str, Any]) -> Dict[str, Any]:
                 tt = t.astimezone(pytz.timezone(sp[1]))
             else:
                 tt = t.astimezone(ZoneInfo(sp[1]))
-            task = ScheduledTask(task_name="t", labels={}, args=[], kwargs={}, time=tt)
+            toff: Any = None
+            if c.get("off"):
+                toff = _dt.timedelta(seconds=c["off"]["sec"]) if c["off"]["k"] == "delta" else ZONES[c["off"]["z"] - 1]
+            task = ScheduledTask(task_name="t", labels={}, args=[], kwargs={}, time=tt, cron_offset=toff)
             try:
                 res = sched_run.get_task_delay(task)
                 r = -1 if res is None else int(res)
